@@ -204,6 +204,8 @@ def solver_level(ctx, stop_first=False):
         # solver object (the operators a run starts with are those of ITS initial potentials)
         dict(name="screening+seeded", dev="ring", td=False, seeded=True, o=dict(include_screening=True, screening_tolerance=1e-3, solve_time=0.03), lam=0.6),
         dict(name="screening+second-solve", dev="ring", td=False, twice=True, o=dict(include_screening=True, screening_tolerance=1e-3, solve_time=0.03), lam=0.6),
+        # a sweep whose solvers are all CONSTRUCTED first and solved afterwards: each runs with operators of its own potential
+        dict(name="static+another-solver-constructed-meanwhile", dev="bar", td=False, sweep=True, cur={"source": 2.0, "drain": -2.0}, o=dict(solve_time=0.03)),
         dict(name="td-slow-ramp-small-steps", dev="bar", td="slow", cur={"source": 2.0, "drain": -2.0}, o=dict(dt_init=1e-4, solve_time=4e-3)),
         dict(name="td-slow-ramp+gauge-offset", dev="bar", td="slow", offset=(30.0, -20.0), cur={"source": 2.0, "drain": -2.0}, o=dict(dt_init=1e-3, solve_time=2e-2)),
     ]
@@ -271,7 +273,15 @@ def solver_level(ctx, stop_first=False):
         TDGLSolver.update_epsilon = eps_hook
         builtins.input = lambda *a, **k: "y"
         try:
-            if cfg.get("twice"):
+            if cfg.get("sweep"):
+                TDGLSolver.update, TDGLSolver.update_applied_vector_potential, TDGLSolver.get_induced_vector_potential, TDGLSolver.adaptive_euler_step = o_upd, o_app, o_ind, o_step
+                sv_a = TDGLSolver(device=dev, options=opts, applied_vector_potential=A, terminal_currents=cfg.get("cur"))
+                sv_b = TDGLSolver(device=dev, options=opts, applied_vector_potential=-1.7 * 0.5, terminal_currents=cfg.get("cur"))  # the next point of the sweep
+                TDGLSolver.update, TDGLSolver.update_applied_vector_potential, TDGLSolver.get_induced_vector_potential, TDGLSolver.adaptive_euler_step = upd, app, ind, stp
+                log["applied"] = np.array(sv_a.current_A_applied, dtype=float)
+                sv_a.solve()
+                del sv_b
+            elif cfg.get("twice"):
                 sv_ = TDGLSolver(device=dev, options=opts, applied_vector_potential=A, terminal_currents=cfg.get("cur"))
                 TDGLSolver.update, TDGLSolver.update_applied_vector_potential, TDGLSolver.get_induced_vector_potential, TDGLSolver.adaptive_euler_step = o_upd, o_app, o_ind, o_step
                 sv_.solve()  # the first run, unobserved
